@@ -4,6 +4,7 @@ import (
 	"fmt"
 	"math"
 	"runtime/debug"
+	"strings"
 	"unicode/utf16"
 
 	"github.com/yorkie-team/yorkie/pkg/document"
@@ -40,7 +41,7 @@ func IsEditOp(op string) bool {
 	switch op {
 	case "rootset", "rootdel", "oset", "odel", "onest", "replObj", "replArr", "replText",
 		"aadd", "ains", "adel", "amove", "amovefront", "aset", "tedit", "tstyle", "cinc",
-		"trtext", "trins", "trdel", "trstyle", "undo", "redo", "pset", "pclear", "pmix", "rootclear":
+		"trtext", "trins", "trdel", "trstyle", "undo", "redo", "pset", "pclear", "pmix", "rootclear", "multi":
 		return true
 	}
 	return false
@@ -73,6 +74,48 @@ func ApplyEdit(d *document.Document, s Step) (desc string, err error) {
 		return "redo", d.Redo()
 	}
 	err = d.Update(func(r *json.Object, p *presence.Presence) error {
+		if s.Op == "multi" {
+			// several edits in ONE Update (one change, one undo entry)
+			var descs []string
+			for _, sub := range MultiSubs(s) {
+				sd, serr := editIn(r, p, sub)
+				if serr != nil {
+					return serr
+				}
+				descs = append(descs, sd)
+			}
+			desc = "one update: " + strings.Join(descs, " + ")
+			return nil
+		}
+		var ierr error
+		desc, ierr = editIn(r, p, s)
+		return ierr
+	})
+	return desc, err
+}
+
+// multiPool are the edits a "multi" step combines: the C14/C15 content alphabet (no styles, moves,
+// set-by-index - F2 is decided per step).
+var multiPool = []string{"tedit", "cinc", "oset", "aadd", "tedit", "rootset", "ains", "adel", "odel", "cinc", "trtext", "trins", "cinc", "tedit"}
+
+// MultiSubs derives the 2..3 edits of a "multi" step from its parameters.
+func MultiSubs(s Step) []Step {
+	n := 2 + s.C%2
+	var out []Step
+	for i := 0; i < n; i++ {
+		out = append(out, Step{Who: s.Who, Op: multiPool[(s.A*3+s.B*5+i*7+s.C)%len(multiPool)], A: s.A + i, B: s.B + 2*i, C: (s.C + 3*i) % 9})
+	}
+	if out[0].Op != "tedit" && s.A%2 == 0 {
+		// half of the cases start with a text insertion (an entry whose first reverse is a text removal)
+		out[0].Op = "tedit"
+	}
+	return out
+}
+
+// editIn executes one edit of the alphabet through the proxies of an Update callback.
+func editIn(r *json.Object, p *presence.Presence, s Step) (desc string, err error) {
+	desc = s.Op
+	{
 		switch s.Op {
 		case "pset":
 			k := []string{"cursor", "name"}[s.A%2]
@@ -107,7 +150,7 @@ func ApplyEdit(d *document.Document, s Step) (desc string, err error) {
 			if o == nil {
 				r.SetNewObject("o")
 				desc = "recreate o"
-				return nil
+				return desc, nil
 			}
 			key := []string{"x", "y", "z"}[s.A%3]
 			switch s.Op {
@@ -135,7 +178,7 @@ func ApplyEdit(d *document.Document, s Step) (desc string, err error) {
 			if a == nil {
 				r.SetNewArray("a")
 				desc = "recreate a"
-				return nil
+				return desc, nil
 			}
 			n := a.Len()
 			v := s.C*10 + s.B
@@ -175,7 +218,7 @@ func ApplyEdit(d *document.Document, s Step) (desc string, err error) {
 			if tx == nil {
 				r.SetNewText("t")
 				desc = "recreate t"
-				return nil
+				return desc, nil
 			}
 			n := UTF16Len(tx.String())
 			from := s.A % (n + 1)
@@ -198,7 +241,7 @@ func ApplyEdit(d *document.Document, s Step) (desc string, err error) {
 			if c == nil {
 				r.SetNewCounter("c", 0)
 				desc = "recreate c"
-				return nil
+				return desc, nil
 			}
 			v := s.B - 3
 			if s.C == 8 {
@@ -211,7 +254,7 @@ func ApplyEdit(d *document.Document, s Step) (desc string, err error) {
 			if tr == nil {
 				desc = "no tree"
 				r.SetInteger("k0", 0)
-				return nil
+				return desc, nil
 			}
 			var ps []*crdt.TreeNode
 			for _, ch := range tr.Root().Index.Children() {
@@ -220,7 +263,7 @@ func ApplyEdit(d *document.Document, s Step) (desc string, err error) {
 			if s.Op != "trins" && len(ps) == 0 {
 				tr.EditByPath([]int{0}, []int{0}, &json.TreeNode{Type: "p"}, 0)
 				desc = "tr.insP at 0"
-				return nil
+				return desc, nil
 			}
 			switch s.Op {
 			case "trins":
@@ -265,9 +308,8 @@ func ApplyEdit(d *document.Document, s Step) (desc string, err error) {
 				desc = fmt.Sprintf("tr.text p%d %d..%d %q", i, from, to, c)
 			}
 		default:
-			return fmt.Errorf("harness: unknown edit op %q", s.Op)
+			return desc, fmt.Errorf("harness: unknown edit op %q", s.Op)
 		}
-		return nil
-	})
-	return desc, err
+		return desc, nil
+	}
 }
